@@ -225,13 +225,32 @@ def state_sites():
         modfuncs = {st.name: st for st in tree.body if isinstance(st, ast.FunctionDef)}
 
         def returns_benign(ctor, depth=0):
-            """a module-level helper whose body is a single `return <benign constructor>(...)` (e.g. a shared attrs.field declaration)"""
-            f = modfuncs.get(ctor)
+            """a helper function (of this module, or the one function of that name under generator/) whose body is a single
+            `return <benign constructor>(...)` (e.g. a shared attrs.field declaration) or a single return of an immutable text
+            (an f-string, a string constant, a concatenation / join of strings): the module-level name then holds an immutable value"""
+            f = modfuncs.get(ctor.split(".")[-1]) if "." not in ctor else None
+            if f is None:
+                cands = [st for _, (t, _p) in all_trees().items() for st in t.body if isinstance(st, ast.FunctionDef) and st.name == ctor.split(".")[-1]]
+                f = cands[0] if len(cands) == 1 else None
             if f is None or depth > 3:
                 return False
             body = [st for st in f.body if not (isinstance(st, ast.Expr) and isinstance(st.value, ast.Constant))]
-            if len(body) == 1 and isinstance(body[0], ast.Return) and isinstance(body[0].value, ast.Call):
-                inner = ast.unparse(body[0].value.func)
+            if len(body) != 1 or not isinstance(body[0], ast.Return) or body[0].value is None:
+                return False
+            v = body[0].value
+
+            def is_text(e):
+                if isinstance(e, ast.JoinedStr) or (isinstance(e, ast.Constant) and isinstance(e.value, (str, int, float, bool, type(None)))):
+                    return True
+                if isinstance(e, ast.BinOp) and isinstance(e.op, (ast.Add, ast.Mod)):
+                    return is_text(e.left)
+                if isinstance(e, ast.Call) and isinstance(e.func, ast.Attribute) and e.func.attr in ("join", "format", "strip", "lower", "upper", "replace") and is_text(e.func.value):
+                    return True
+                return False
+            if is_text(v):
+                return True
+            if isinstance(v, ast.Call):
+                inner = ast.unparse(v.func)
                 return inner in BENIGN_CTORS or returns_benign(inner, depth + 1)
             return False
 
